@@ -31,7 +31,7 @@ def FullStatement_alpha_variables_all (V : Vr) (s : SchemaD) (fx : Fixes) (d : D
   ∀ r ∈ Rule.all, (Silent s fx r (V.doc d) ↔ Silent s fx r d)
 
 /-- **alpha_variables for 25 of the 26 rules** (all but OverlappingFieldsCanBeMerged): injective renaming, code of
-    /repo HEAD (only the fixes V3, V4 are used, by the three collector rules); no hypothesis on the document -/
+    /repo HEAD (only the fixes V3, V4 are used, by the three collector rules); no hypothesis on the document [ALONE-RUN statement, rule by rule: each rule visitor in a chain of its own; for the verdict of the chain `validate_ast` runs see `Props/C06_chain.lean: chainM_six_transformations`.] -/
 theorem alpha_variables_all25_partial (V : Vr) (hinj : ∀ a b, V.var a = V.var b → a = b) (s : SchemaD) (fx : Fixes)
     (h3 : fx.v3 = true) (h4 : fx.v4 = true) (d : Doc) (r : Rule) (hr : r ≠ .overlappingFieldsCanBeMerged) :
     Silent s fx r (V.doc d) ↔ Silent s fx r d := by
